@@ -177,6 +177,8 @@ type fakeServerStream struct {
 	trailerSet   bool
 	trailer      metadata.MD
 	rec          *recorder // shared order log (may be nil)
+	transport    string    // how RecvMsg fills the handler's message: "" / "mg" merge (pkg/wrap), "ow" overwrite (grpc codec), "f<tok>" fail, "of<tok>" overwrite then fail
+	recvErr      error     // the error of a failing transport
 }
 
 func (s *fakeServerStream) SetHeader(md metadata.MD) error {
@@ -213,10 +215,38 @@ func (s *fakeServerStream) RecvMsg(m any) error {
 		return io.EOF
 	}
 	s.gotReq = true
-	if pm, ok := m.(proto.Message); ok {
-		proto.Merge(pm, s.req)
+	return transportRecv(s.transport, s.recvErr, s.req, m)
+}
+
+// transportRecv is what a ServerStream.RecvMsg(m) does with the handler's message m when the client sent
+// wire: grpc's codec decodes INTO m after resetting it (proto.Unmarshal), pkg/wrap's in-process stream
+// merges, either may fail.
+func transportRecv(kind string, failure error, wire proto.Message, m any) error {
+	pm, ok := m.(proto.Message)
+	if !ok {
+		return status.Error(codes.Internal, "not a proto message")
 	}
-	return nil
+	switch {
+	case kind == "" || kind == "mg":
+		proto.Merge(pm, wire)
+		return nil
+	case kind == "ow" || strings.HasPrefix(kind, "of"):
+		// (partial: some messages of the odd-type pool are proto2 with required fields)
+		b, err := proto.MarshalOptions{AllowPartial: true}.Marshal(wire)
+		if err != nil {
+			return err
+		}
+		if err := (proto.UnmarshalOptions{AllowPartial: true}).Unmarshal(b, pm); err != nil {
+			return err
+		}
+		if kind == "ow" {
+			return nil
+		}
+		return failure
+	case strings.HasPrefix(kind, "f"):
+		return failure
+	}
+	return status.Error(codes.Internal, "unknown transport "+kind)
 }
 
 // captureRegistrar receives what a router's Register hands to a grpc server.
